@@ -34,6 +34,78 @@ def build(P):
                  ensures=E("one_point_per_rank", "len(result[0]) == len(self.tp_list) and len(result[1]) == len(self.tp_list)",
                            "precision_is_cumulative_tp_over_rank", "forall(k, 0, len(self.tp_list), result[0][k] == self.tp_list[k] / (k + 1))",
                            "recall_is_cumulative_tp_over_ground_truths", "forall(k, 0, len(self.tp_list), result[1][k] == (self.tp_list[k] / self.num_ground_truth if self.num_ground_truth > 0 else 0))")))
+    # ---------------------------------------------------------------- which results count: cumulative TP weights and FP counts, rank by rank
+    import z3 as _z3
+    from pyvc.lemmas import running_total
+    import contracts.C10 as C10
+    C10.models(P)
+    OR = "evaluation.result.object_result"
+    P.model(ClassModel("DynamicObjectWithPerceptionResult", {"estimated_object": TSObj("DynamicObject"), "ground_truth_object": TSObj("DynamicObject", nullable=True)},
+                       repo_class=idx.lookup(f"{OR}:DynamicObjectWithPerceptionResult")))
+    RES = TSObj("DynamicObjectWithPerceptionResult")
+
+    def _cumsum(interp, args, kwargs, node):
+        """np.cumsum(list of numbers): running totals (assumed numpy contract)"""
+        x = args[0]
+        n_ = interp.ctx.slen(x.z)
+        r = interp.new_slist(TReal(), "cumsum")
+        acc = interp.ctx.fresh("cumsum_items", _z3.ArraySort(I, R))
+        k = _z3.Int("k!cs")
+        xi = lambda j: interp.ctx.item_terms(x, j)[0]
+        interp.ctx.pc.append(_z3.ForAll([k], _z3.Implies(_z3.And(0 <= k, k < n_), _z3.Select(acc, k) == _z3.If(k == 0, xi(k), _z3.Select(acc, k - 1) + xi(k)))))
+        interp.ctx.set_list(r, n_, ("fn", lambda j: [_z3.Select(acc, j)]))
+        return VOpaque("ndarray_list", None, data={"list": r})
+
+    def install_np(it):
+        from pyvc.externals import _wrap
+        it.externals["numpy.cumsum"] = _wrap(it, "numpy.cumsum", _cumsum, "np.cumsum(xs)[k] = xs[0] + ... + xs[k]")
+        it.externals["ndarray_list.tolist"] = _wrap(it, "ndarray_list.tolist", lambda interp, a, kw, nd: a[0].data["list"], "tolist() of a 1-D array is the list of its items")
+    P.install(install_np)
+    AL = TEnum(idx.lookup("common.label:AutowareLabel"))
+    MM = idx.lookup("evaluation.matching.object_matching:MatchingMode")
+    TPA = idx.lookup("evaluation.metrics.detection.tp_metrics:TPMetricsAp")
+    OBJ = "object_results"
+    lab = lambda r: f"({r}.ground_truth_object.semantic_label.label if {r}.ground_truth_object is not None else {r}.estimated_object.semantic_label.label)"
+    thr_none = lambda r: f"uf_bool('thr_none', {lab(r)}, self.target_labels, self.matching_threshold_list)"
+    thr_val = lambda r: f"uf_real('thr', {lab(r)}, self.target_labels, self.matching_threshold_list)"
+    correct = lambda r: f"uf_bool('correct', {r}, self.matching_mode, {thr_val(r)})"
+    import contracts.C03 as C03
+    P.install(lambda it: it.spec_funcs.update(opt_value=C03.opt_value))
+    weight = lambda r: f"uf_real('tp_weight', {r})"
+    tpw = lambda k: f"(({weight(OBJ + '[' + k + ']')}) if (not {thr_none(OBJ + '[' + k + ']')}) and {correct(OBJ + '[' + k + ']')} else 0)"
+    fpw = lambda k: f"(1.0 if (not {thr_none(OBJ + '[' + k + ']')}) and not {correct(OBJ + '[' + k + ']')} else 0.0)"
+    gt_, dt_ = running_total("cum_tp", real=True)
+    gf_, df_ = running_total("cum_fp", real=True)
+    nO = f"len({OBJ})"
+    named_thr = Contract("common.threshold:get_label_threshold", params={}, returns=Opt(TReal()),
+                         ensures=E("none_flag", "(result is None) == uf_bool('thr_none', semantic_label.label, target_labels, threshold_list)",
+                                   "value", "implies(result is not None, result == uf_real('thr', semantic_label.label, target_labels, threshold_list))"))
+    named_correct = Contract(f"{OR}:DynamicObjectWithPerceptionResult.is_result_correct", params={}, returns=TBool(),
+                             requires=E("a_threshold", "matching_threshold is not None"),
+                             ensures=E("named", "result == uf_bool('correct', self, matching_mode, opt_value(matching_threshold))"))
+    named_weight = Contract("evaluation.metrics.detection.tp_metrics:TPMetricsAp.get_value", params={}, returns=TReal(),
+                            ensures=E("named_in_unit_interval", "result == uf_real('tp_weight', object_result) and 0 <= result and result <= 1"))
+    inv_tp = E("two_new_lists_of_one_entry_per_result", f"len(tp_list) == {nO} and len(fp_list) == {nO} and tp_list is not fp_list and not is_old(tp_list) and not is_old(fp_list) and allocated(tp_list) and allocated(fp_list)",
+               "entries_so_far", f"forall(k, 0, i, tp_list[k] == {tpw('k')} and fp_list[k] == {fpw('k')})",
+               "entries_to_come_are_zero", f"forall(k, i, {nO}, tp_list[k] == 0 and fp_list[k] == 0)",
+               "input_untouched", f"len({OBJ}) == old(len({OBJ})) and forall(k, 0, {nO}, {OBJ}[k] is old({OBJ}[k]))")
+    mk_ap2 = lambda it: make_ap(it, num_ground_truth=TInt().fresh(it.ctx, "num_gt"), target_labels=Opt(TSList(AL)).fresh(it.ctx, "targets"),
+                                matching_mode=TEnum(MM).fresh(it.ctx, "mode"), matching_threshold_list=Opt(TSList(TReal())).fresh(it.ctx, "thresholds"),
+                                objects_results_num=TInt().fresh(it.ctx, "n_results"))
+    P.verify(f"{AP}:Ap._calculate_tp_fp", name="Ap._calculate_tp_fp",
+             contract=Contract(f"{AP}:Ap._calculate_tp_fp", cut=False,
+                               params={"self": mk_ap2, "tp_metrics": lambda it: it.ctx.new_cell("obj", {}, TPA), OBJ: TSList(RES)},
+                               locals={"tp_list": RL, "fp_list": RL, "matching_threshold_": Opt(TReal()), "#comp1": TReal(), "#comp2": TReal()},
+                               requires=E("some_results_and_their_number_recorded", f"{nO} > 0 and self.objects_results_num == {nO}"),
+                               loops={1: LoopSpec(index="i", invariants=inv_tp)},
+                               ensures=E("one_entry_per_rank", f"len(result[0]) == {nO} and len(result[1]) == {nO}",
+                                         "cumulative_tp_weight_of_the_correct_results_judged_at_the_threshold_of_the_ground_truths_label",
+                                         f"result[0][0] == {tpw('0')} and forall(k, 0, {nO} - 1, result[0][k + 1] == result[0][k] + {tpw('k + 1')})",
+                                         "incorrect_results_counted_from_the_first_rank", f"result[1][0] == {fpw('0')}",
+                                         "cumulative_count_of_the_incorrect_results", f"forall(k, 0, {nO} - 1, result[1][k + 1] == result[1][k] + {fpw('k + 1')})")),
+             extra_contracts={idx.lookup("common.threshold:get_label_threshold").fq: named_thr,
+                              idx.lookup(f"{OR}:DynamicObjectWithPerceptionResult.is_result_correct").fq: named_correct,
+                              idx.lookup("evaluation.metrics.detection.tp_metrics:TPMetricsAp.get_value").fq: named_weight})
     # ---------------------------------------------------------------- interpolation: maximum precision at any higher recall
     PL, RLs = "precision_list", "recall_list"
     MP, MR = "max_precision_list", "max_precision_recall_list"
